@@ -250,10 +250,18 @@ def run(ck, ix, tier):
         itos += [c for c in walk_local(helper.node) if isinstance(c, ast.Call) and call_name(c).startswith("ito")]
     ck.check(not itos, "G-OWN", "_numpy_method_wrap|no-inplace-conversion-of-self", mw.loc(itos[0]) if itos else mw.loc(), "the wrapped quantity is not converted in place",
              f"`{norm(itos[0]) if itos else ''}` converts the quantity in place inside a read-only ndarray method (q.cumprod() would rewrite q)")
-    if conv:
-        c = conv[0]
-        rebind = [a for a in walk_local(mw.node) if isinstance(a, ast.Assign) and norm(a.targets[0]) == "func"]
-        ok = bool(rebind) and all(f"{c}._magnitude" in norm(a.value) and "func.__name__" in norm(a.value) for a in rebind)
+    # by role: the conversion is whatever calls a *to_if_needed helper; when the method is converted at all, the
+    # callable (2nd parameter) must be re-bound to an attribute of the converted copy's magnitude
+    from .. import shape as _sh16
+    fpar = mw.node.args.args[1].arg if len(mw.node.args.args) > 1 else "func"
+    tocalls = [c for c in walk_local(mw.node) if isinstance(c, ast.Call) and "to_if_needed" in call_name(c)]
+    if tocalls:
+        rebind = [a for a in walk_local(mw.node) if isinstance(a, ast.Assign) and norm(a.targets[0]) == fpar]
+        ok = bool(rebind)
+        for a in rebind:
+            rv = _sh16.resolve(a.value, mw.node)
+            mm = _sh16.match("getattr(_M, _N)", rv)
+            ok = ok and mm is not None and mm["_N"] == f"{fpar}.__name__" and "to_if_needed(" in mm["_M"] and "._magnitude" in mm["_M"]
         ck.check(ok, "G-PROV", "_numpy_method_wrap|method-looked-up-on-converted-copy", mw.loc(rebind[0]) if rebind else mw.loc(), "the ndarray method is re-bound to the converted copy's magnitude",
                  "after converting a copy to the required input units the ndarray method is not looked up on that copy's magnitude (the unconverted data would be used)")
 
